@@ -29,7 +29,7 @@ pub fn def() -> CheckDef {
             real: super::REAL_COMPONENTS,
             stub: super::STUB_COMPONENTS,
         },
-        runs: |t| if t.thorough() { 20_000 } else { 600 },
+        runs: |t| if t.thorough() { 40_000 } else { 5_000 },
         run,
         execute: |sc, acc| run_history(sc, acc, Mode::Restores),
         expected_probes: &[
